@@ -35,8 +35,9 @@ def check_cuts_array(
     if not np.issubdtype(cuts.dtype, np.integer):
         raise ValueError("The cuts must be of integer type.")
 
-    if np.issubdtype(cuts.dtype, np.unsignedinteger):
-        # Differences of unsigned integers wrap around instead of becoming negative.
+    if cuts.dtype != np.int64:
+        # Differences of unsigned integers wrap around instead of becoming negative, and
+        # position arithmetic in the scorers overflows in narrow integer types.
         cuts = cuts.astype(np.int64)
 
     if cuts.shape[-1] != last_dim_size:
